@@ -64,6 +64,11 @@ TConnect == /\ Ev.e = "Connect"
             /\ WithDue(Connect(K, Ev.inc))
             /\ MgrMatches
 
+\* a second connection from a connected address is dropped: nothing changes
+TConnectDup == /\ Ev.e = "ConnectDup"
+               /\ WithDue(ConnectDup(K))
+               /\ MgrMatches
+
 \* first half of a task step that calls the manager
 TCall ==
   /\ Ev.e = "Call"
@@ -172,7 +177,7 @@ TPanic == /\ Ev.e = "Panic"
 
 TNext == /\ l <= Len(Rec)
          /\ l' = l + 1
-         /\ (TReset \/ TConnect \/ TCall \/ TMgr \/ TEnd \/ TExit \/ TRotate \/ TTracker \/ TSettle \/ TDisk \/ TPanic)
+         /\ (TReset \/ TConnect \/ TConnectDup \/ TCall \/ TMgr \/ TEnd \/ TExit \/ TRotate \/ TTracker \/ TSettle \/ TDisk \/ TPanic)
          /\ TLCSet(1, l)
 TSpec == TInit /\ [][TNext]_tvars
 
